@@ -1,0 +1,13 @@
+//go:build !verif
+
+package s2
+
+// Locations of shared ShapeIndex state reported to verifAccess.
+const (
+	verifLocCells   = 0
+	verifLocShapes  = 1
+	verifLocPending = 2
+)
+
+// verifAccess is a no-op unless the verif build tag is set.
+func verifAccess(index *ShapeIndex, loc uint8, write bool) {}
